@@ -87,6 +87,8 @@ def draw_scenario(seed, i, kind=None, real_writers=False):
         big = rng.random() < 0.2
         p["tree"] = _tree(rng, rng.randint(1, 12 if not big else 5), 3000 if not big else 120000)
         p["prev_tree"] = _tree(rng, rng.randint(1, 4), 2000)
+        if rng.random() < 0.07:
+            p["tree"] = {}  # nothing to put into the archive: what is published is still a complete (empty) archive
         p["status_file"] = kind in ("zipbuilder", "mwzip_main") and rng.random() < 0.7
         p["keep_tmpfiles"] = rng.random() < 0.4
         many = rng.random() < 0.08
